@@ -50,10 +50,16 @@ class Check:
         self.extra = {}
         self.t0 = time.time()
         self.persist = True
+        self.equiv = set()
 
     # recording ---------------------------------------------------------------
-    def ob(self, rule, fi, node, fact, ok, detail='', construct=None, nontrivial=True):
+    def ob(self, rule, fi, node, fact, ok, detail='', construct=None, nontrivial=True, soft=False):
         """Record one obligation. `fi` is a FuncInfo (or None), `node` the ast node it is about."""
+        if soft and not ok and fi is not None and fi.qual in self.equiv:
+            # a name-sensitive fact about a function that was proven equal (modulo renaming) to its reviewed
+            # reference form, for which the fact holds: the mismatch is a renaming, not a violation
+            ok = True
+            fact += ' [implied: function equals its reference form]'
         anchor = fi.qual if fi is not None else ''
         loc = fi.loc(node) if fi is not None and node is not None else (fi.loc() if fi is not None else '')
         if fi is not None:
